@@ -179,6 +179,24 @@ def gen_plan(run_seed: int, tier: str) -> dict:
             op = dict(draw(mine))
             op["th"] = th
             ops.append(op)
+    # pattern (own PRNG stream): a consumer deregisters, registers again and repeats its earlier subscription request while
+    # attendance passes run on other threads - its new subscription must survive
+    r2 = random.Random(run_seed ^ 0x5EB5C16)
+    pre_subs = [o for o in pre if o["op"] == "subscribe"]
+    if pre_subs and r2.random() < 0.10:
+        s0 = r2.choice(pre_subs)
+        n_sub[0] += 1
+        chain = [{"op": "deregister_consumer", "app": s0["app"]}, {"op": "register_consumer", "app": s0["app"]},
+                 dict(s0, n=n_sub[0], same_as=s0["n"])]
+        others = [{"op": "attend"}]
+        for _ in range(r2.choice([0, 1, 1, 2])):
+            others.append(r2.choice([{"op": "attend"}, dict(add(r2.choice(reg_p)), dt_ms=0), {"op": "collect_trash", "dt_ms": 0}]))
+        r2.shuffle(others)
+        ops = [dict(o, th=0) for o in chain]
+        nth2 = r2.choice([2, 2, 3])
+        for i, o in enumerate(others):
+            ops.append(dict(o, th=1 + i % (nth2 - 1)))
+        cfg["focus"] = "resubscribe"
     cfg["pools"] = {"providers": provs, "consumers": conss}
     sched = S.draw_strategy(r)
     return {"engine": ENGINE, "property": ID, "config": cfg, "pre": pre, "ops": ops, "sched": sched, "sched_seed": r.getrandbits(32)}
@@ -188,18 +206,19 @@ def gen_plan(run_seed: int, tier: str) -> dict:
 class _Callback:
     """Subscription callback with a deterministic hash (SubscriptionInfo is hashed by the service)."""
 
-    def __init__(self, run, label):
+    def __init__(self, run, label, group=None):
         self.run = run
         self.label = label
+        self.group = label if group is None else group      # callbacks of one group compare equal (like one bound method passed twice)
 
     def __call__(self, resp):
         self.run.on_callback(self.label, resp)
 
     def __hash__(self):
-        return 7919 * self.label + 13
+        return 7919 * self.group + 13
 
     def __eq__(self, other):
-        return self is other
+        return isinstance(other, _Callback) and other.group == self.group
 
 
 def _modules():
@@ -402,7 +421,8 @@ class _Run:
         elif kind == "subscribe":
             req = C.SubscribeDataobjectsReq(application_id=op["app"], data_object_type=tuple(op["types"]), priority=op.get("priority"),
                                             filter=None, notify_time=None, multiplicity=op.get("multiplicity"), order=None)
-            resp = self.if4.subscribe_data_consumer(req, _Callback(self, op["n"]))
+            # "same_as": the consumer repeats, after deregistering and registering again, the request (and callback) it used before
+            resp = self.if4.subscribe_data_consumer(req, _Callback(self, op["n"], group=op.get("same_as")))
             rec["ok"] = int(resp.result) == 0
             if rec["ok"]:
                 self.sub_id[op["n"]] = resp.subscription_id
@@ -481,6 +501,7 @@ class _Run:
                 post = [{"op": "attend"}, {"op": "query", "app": AUDITOR, "types": list(L.ALL_TYPES), "filter": None}]
                 pools = self.cfg.get("pools", {})
                 # the final registry content is read through the API: a deregistration is acknowledged iff the application was registered
+                post += [{"op": "unsubscribe", "app": o["app"], "ref": o["n"]} for o in plan["ops"] if o["op"] == "subscribe" and o.get("same_as")]
                 post += [{"op": "deregister_provider", "app": a} for a in pools.get("providers", [])]
                 post += [{"op": "deregister_consumer", "app": a} for a in pools.get("consumers", [])]
                 for i, op in enumerate(post):
